@@ -192,22 +192,30 @@ def gen_kind(rng, keys, which=None):
 
 
 def history_ops(rng, prefix, iid, cursor, keys, nops, stats, seps=()):
-    """random next/seek history on iterator `iid`; seeks respect the property's 'k at or after the start of the range'"""
+    """random next/seek history on iterator `iid`; seeks respect the property's 'k at or after the start of the range'.
+    The spec cursor is advanced alongside so that "the key just returned" and "a key inside a group of equal keys that
+    was partly consumed" are real, frequent targets."""
     lines = []
     last = None
+    import copy
+    cur = copy.copy(cursor)
     for _ in range(nops):
         r = rng.below(10)
         if r < 4:
             k = gen_query_key(rng, keys, seps)
             m = rng.below(8)
-            if m == 0 and last is not None:
+            if m <= 1 and last is not None:
                 k = last; stats.bump("seek_to_key_just_returned")
             if k < cursor.start:
                 k = cursor.start
             lines.append("%s.seek %d %s" % (prefix, iid, hx(k)))
+            cur.seek(k)
             stats.bump("op_seek")
         else:
             lines.append("%s.next %d" % (prefix, iid))
+            e = cur.next()
+            if e is not None:
+                last = e[0]
             stats.bump("op_next")
     return lines
 
@@ -557,8 +565,10 @@ def gen_merger_case(rng, stats, focus="C04"):
             ks = list(universe)
         else:
             ks = [k for k in universe if rng.chance(1, 2)]
-        if kind == "u" and mode in ("none", "dupsort") and ks and rng.chance(1, 2):
-            ks = sorted(ks + [rng.pick(ks) for _ in range(rng.below(3))])   # duplicate keys inside one user source
+        if kind == "u" and ks and (rng.chance(1, 2) if mode in ("none", "dupsort") else rng.chance(1, 3)):
+            # duplicate keys inside one user source (what a merger without a merge function, used as a source, delivers):
+            # with a merge function the outer merger has to fold them too
+            ks = sorted(ks + [rng.pick(ks) for _ in range(1 + rng.below(3))]); stats.bump("merger_src_with_duplicate_keys")
         es = []
         for ei, k in enumerate(ks):
             v = tok(si, ei)
@@ -581,12 +591,18 @@ def gen_merger_case(rng, stats, focus="C04"):
     marg = {"union": "merge=union", "lcp": "merge=lcp", "none": "merge=none", "dupsort": "merge=none dupsort=1", "fail": "merge=fail:%s" % hx(failkey or b"")}[mode]
     margs = marg + (" dupsort=1" if with_dupsort else "")
     # sometimes the last two (or more) sources are wrapped in a NESTED merger with the same configuration, added as one source
-    nest = mode != "fail" and len(srcs) >= 2 and rng.chance(1, 4)
-    inner = srcs[len(srcs) - rng.pick([1, 2, 2, 3]):] if nest else []
+    nest = mode != "fail" and len(srcs) >= 2 and rng.chance(1, 3)
+    inner = srcs[len(srcs) - rng.pick([1, 2, 2, 3, len(srcs)]):] if nest else []
     outer = srcs[:len(srcs) - len(inner)]
     if nest:
         stats.bump("merger_nested")
-        lines.append("m.new 2 " + margs)
+        inner_margs = margs
+        if mode in ("union", "lcp") and rng.chance(1, 2):
+            # the inner merger has NO merge function: it hands equal keys through one by one and the outer one folds them
+            inner_margs = "merge=none" + (" dupsort=1" if rng.chance(1, 2) else ""); stats.bump("merger_nested_inner_nomerge")
+        if not outer:
+            stats.bump("merger_nested_only_source")
+        lines.append("m.new 2 " + inner_margs)
         for kind, es in inner:
             lines.append("m.src 2 kind=%s bs=%d ri=%d %s" % (kind, rng.pick([16, 32, 64]), rng.pick([1, 2, 3]), " ".join("%s %s" % (hx(k), hx(v)) for k, v in es)))
     lines.append("m.new 1 " + margs)
@@ -610,7 +626,7 @@ def gen_merger_case(rng, stats, focus="C04"):
         for _ in range(rng.pick([1, 2, 3])):
             kind = gen_kind(rng, allkeys)
             lines.append("m.it 1 %d %s" % (iid, kind_args(kind)))
-            cur = Cursor([(k, b"") for k in allkeys], kind)
+            cur = Cursor([(k, v) for k, v, _ in merged_content(mode, [es for _, es in srcs])], kind)
             lines += history_ops(rng, "m", iid, cur, allkeys, rng.pick([4, 8, 12, 16]), stats)
             iid += 1
     return lines
@@ -741,8 +757,10 @@ def gen_sorter_case(rng, stats, pool=None):
     mem = rng.pick([1, 24, 40, 64, 100, 200, 400, 1000, 100000])
     pool = rng.pick([None, None, 0, 1, 2, 4, 8]) if pool is None else pool
     stats.bump("sorter_pool_%s" % pool); stats.bump("sorter_mem_%d" % mem)
+    tdir = rng.pick(["plain", "plain", "symlink", "late"])      # the configured temp dir: existing / a symlink to one / created after set_temp_dir
+    stats.bump("sorter_tmpdir_" + tdir)
     lines = ["reset", "@i sys.info",
-             "s.new 1 mem=%d minmem=0 merge=%s eo=$i.eo pid=$i.pid%s" % (mem, merge, "" if pool is None else " pool=%d" % pool)]
+             "s.new 1 mem=%d minmem=0 merge=%s eo=$i.eo pid=$i.pid tdir=%s%s" % (mem, merge, tdir, "" if pool is None else " pool=%d" % pool)]
     for ai, k in enumerate(keys):
         if merge == "lcp":
             # values of different lengths with common prefixes: the fold of two values is SHORTER than either operand
